@@ -14,6 +14,7 @@ import (
 	"os"
 	"sort"
 	"strings"
+	"syscall"
 	"time"
 )
 
@@ -293,6 +294,43 @@ func (o *Out) Finish() {
 	if err := os.WriteFile(*OutPath, b, 0o644); err != nil {
 		Fatal("write: %v", err)
 	}
+}
+
+// ---- breadcrumb: survives a fatal (unrecoverable) runtime error of the worker ----
+
+var crumb []byte
+
+// Breadcrumb records "what the worker is about to do" (a tag and the input) in a small
+// memory-mapped file next to the result file.  A Go fatal error (out of memory, stack overflow,
+// concurrent map writes) cannot be recovered by the worker; the driver then reads this file and
+// reports the crash as a violation with the input at hand.
+func Breadcrumb(tag string, data []byte) {
+	if crumb == nil {
+		if *OutPath == "" {
+			return
+		}
+		f, err := os.OpenFile(*OutPath+".crumb", os.O_RDWR|os.O_CREATE|os.O_TRUNC, 0o644)
+		if err != nil {
+			return
+		}
+		if err := f.Truncate(1 << 16); err != nil {
+			return
+		}
+		m, err := syscall.Mmap(int(f.Fd()), 0, 1<<16, syscall.PROT_READ|syscall.PROT_WRITE, syscall.MAP_SHARED)
+		if err != nil {
+			return
+		}
+		crumb = m
+	}
+	n := len(tag) + 1 + len(data)
+	if n > len(crumb)-4 {
+		data = data[:len(crumb)-4-len(tag)-1]
+		n = len(tag) + 1 + len(data)
+	}
+	binary.LittleEndian.PutUint32(crumb[0:4], uint32(n))
+	copy(crumb[4:], tag)
+	crumb[4+len(tag)] = 0
+	copy(crumb[5+len(tag):], data)
 }
 
 // Show renders FIX bytes readably.
